@@ -157,6 +157,18 @@ def execute(prop, seed, tier="quick", replay=None, want_sample=False):
     rundir = fs.fresh_dir(f"run-{seed}")
     fs.reset(dir_stream=tape.s("fs"), bufsize=[1, 7, 64, 512, 8192][tape.s("cfg").draw(5)])
     ctx.rundir = rundir
+    # swarm: the application's logging configuration.  1 run in 4 has DEBUG logging enabled (records are dropped by a
+    # NullHandler), the others have logging disabled; library behaviour must not depend on it
+    import logging
+    root = logging.getLogger()
+    if tape.s("cfg").draw(4) == 0:
+        logging.disable(logging.NOTSET)
+        root.setLevel(logging.DEBUG)
+        if not any(isinstance(h, logging.NullHandler) for h in root.handlers):
+            root.handlers = [logging.NullHandler()]
+        ctx.probes["debug_logging_enabled"] += 1
+    else:
+        logging.disable(logging.CRITICAL)
     ctx.new_epoch()
     res = {"seed": seed, "outcome": "ok", "kind": None}
     try:
